@@ -100,9 +100,9 @@ def run(rep):
             acc.setdefault(st, {})[b.name] = d
     n_acc = sum(len(v) for v in acc.values())
     rep.floor("C18-R1", "AST node types", len(acc), 30)
-    rep.floor("C18-R1", "data accessors", n_acc, 108)
+    rep.floor("C18-R1", "data accessors", n_acc, 80)
     fm = [b for d, b in prog.bodies.items() if d.startswith("aldrin_parser::fmt::Formatter::")]
-    rep.floor("C18-R1", "formatter functions (incl. closures)", len(fm), 45)
+    rep.floor("C18-R1", "formatter functions (incl. closures)", len(fm), 30)
     cov = {}
     for b in fm:
         emits = [c for c in b.calls if is_emit(c)]
